@@ -250,10 +250,16 @@ def _canon_out(text):
 
 def _inboxes(events, conns):
     box = {c: [] for c in conns}
+    pings = {c: set() for c in conns}
     for e in events:
         group = {}
         for (c, text) in e['ds']:
-            if c in box: group.setdefault(c, []).append(_canon_out(text))
+            if c not in box: continue
+            t = text.split()
+            if t and t[0] == 'pingReq' and len(t) > 1: pings[c].add(t[1])
+            # a refusal that echoes the id of a ping sent to this connection carries a clock-derived id too
+            if t and t[0] == 'error' and len(t) > 2 and t[1] in pings[c]: text = 'error #ping ' + ' '.join(t[2:])
+            group.setdefault(c, []).append(_canon_out(text))
         for c, l in group.items():
             # what one event delivers to one connection is compared as a multiset: updates flushed by one frame
             # tick leave a Go map in arbitrary order
@@ -298,14 +304,24 @@ def noninterference(prop, tier, seed, cov, log):
                 sizes.append((len(K), len(outsiders)))
                 keep = [e for e in h['events'] if (e['conn'] in K) or (e['conn'] is None and e['raw'].split()[1:3] == ['tick', '1']) or e['kind'] == 'drain']
                 work.append((tf, idx, h, K, keep))
+    def consumed(events, K):
+        # what each member's handler took from its scheduler, in order: the scheduler of hagall-common hands out
+        # queued pose updates of different entities in Go-map order, a choice of its own that the replay cannot force
+        return [e['raw'] for e in events if e['kind'] == 'handle' and e['conn'] in K]
+    unaligned = [0]
     def rerun(w):
         tf, idx, h, K, keep = w
         lines = [h['head']] + [e['line'] for e in keep]
         tag = f'{prop}-ni-{os.path.basename(tf)}-{idx}'
-        out, err, tf2 = L.run_history(lines, tag)
-        if err: return (w, None, err)
-        h2 = list(_parse_trace(tf2).values())
-        return (w, h2[0] if h2 else None, None)
+        want = consumed(h['events'], K)
+        for attempt in range(12):
+            out, err, tf2 = L.run_history(lines, tag)
+            if err: return (w, None, err)
+            h2 = list(_parse_trace(tf2).values())
+            if not h2: return (w, None, None)
+            if consumed(h2[0]['events'], K) == want: return (w, h2[0], None)
+        unaligned[0] += 1
+        return (w, None, None)
     with cf.ThreadPoolExecutor(max_workers=L.NCPU) as ex:
         for (w, h2, err) in ex.map(rerun, work):
             tf, idx, h, K, keep = w
@@ -329,6 +345,7 @@ def noninterference(prop, tier, seed, cov, log):
     cov['noninterference_histories'] = total
     cov['noninterference_eligible'] = eligible
     cov['noninterference_identical'] = same
+    cov['noninterference_scheduler_order_not_reproduced'] = unaligned[0]
     cov['noninterference_sizes'] = {'members': sorted({s[0] for s in sizes}), 'outsiders': sorted({s[1] for s in sizes})}
     shutil_rm = __import__('shutil').rmtree
     if os.environ.get('VERIF_KEEP') != '1': shutil_rm(rundir, ignore_errors=True)
